@@ -56,6 +56,10 @@ CLAIMED['C18'] = dict(
    text="PARTIAL. Proved in Coq (props/C18.v, closed): over the skeleton of Tifa.process_code REGENERATED on every run, for EVERY oracle (the parser and the traversal may raise any Exception subclass incl. RecursionError) process_code returns an analysis, completes iff both stages returned, and marks a failure once with one system_error; for the per-code cache of tifa_analysis, by induction over ANY call sequence: a repeated code returns the same result and attaches nothing, and feedback grows only by first analyses. NOT proved (tested): determinism (every generated program analysed under two PYTHONHASHSEEDs and again on a fresh report later in the same process), 'completes on the introductory subset' (every documented builtin function and str/list/dict/number method, standard-module uses, random mixes), issue lines within the source.",
    note="Trusted: Coq kernel; T4 translator + contract table in tools/props/c18.py (str() of CPython/pedal exceptions and the system_error constructor do not raise); hand model of the cache in tifa_analysis tied by correspondence on call sequences (object identity, feedback counts after every call).",
    technique="Coq proof over regenerated exception-flow skeleton + cache state machine by induction; generation-based testing for the unproved parts", design="3/C18")
+CLAIMED['C09'] = dict(
+   text="Coq theorems (props/C09.v, closed), by mutual induction on programs of ANY size and nesting over assignments / expression statements / if-elif-else: TIFA's three-valued (yes/no/maybe) analysis is the EXACT abstraction of the collecting path semantics - the issue list (Initialization Problem / Possible Initialization Problem / none per read site) equals the classification by all-paths / no-path / some-paths assigned, and a variable is reported unused iff it is touched on some path and read after its last assignment on none; every single execution (any branch-outcome sequence) is contained in the collecting semantics. PARTIAL: loops and function calls are outside the theorem ('no missed uninitialised read' is checked against real executions only). Tie: the hand model vs the real tifa_analysis on rendered programs (exhaustive small scope + random), and the SPECIFICATION vs CPython itself: each program is executed under every branch-outcome / iteration-count vector with a recording namespace.",
+   note="Trusted: Coq kernel; hand model of store_variable/load_variable/combine_states/merge_paths/_finish_scope with per-path maps flattened to full environments (validated by correspondence, not regenerated); the rendering of model programs to Python (opaque conditions = input()). Single module scope. Known finding: for-loops over possibly empty iterables.",
+   technique="Coq proof (exact abstraction, mutual structural induction) + 3-way differential: model / real TIFA / real CPython executions", design="3/C09")
 REASONS = {}
 DEFAULT_REASON = "check not built yet (work in progress; see DESIGN.md section 6 for the order)"
 
